@@ -1,12 +1,111 @@
 ------------------------------ MODULE PolicyOps ------------------------------
-(* Security policy of the bus (doc/dbus-daemon.1.xml.in, <policy> element).   *)
-(* STUB for the first increment: everything allowed.                           *)
-EXTENDS Naturals, Sequences, FiniteSets
+(* Security policy of the bus: doc/dbus-daemon.1.xml.in, element <policy>.     *)
+(*                                                                             *)
+(* policy == [kind |-> "allow-all"]                                             *)
+(*         | [kind |-> "rules", prune |-> BOOLEAN,                             *)
+(*            ctx |-> Seq of [c, id, rules]   policy elements in file order,   *)
+(*                    c \in {"default","group","user","console_f","console_t", *)
+(*                           "mandatory"}, id = gid / uid for group / user     *)
+(*            groupsOf |-> Seq of [uid, gids]]                                  *)
+(* rule == [k |-> "send"|"recv"|"own", allow, ty (0 = any), path, ifc, mem, err,*)
+(*          peer (send_destination / receive_sender, <<>> = any), prefix,      *)
+(*          bcast (0 any, 1 true, 2 false), rr (requested_reply), eav,         *)
+(*          minf, maxf (-1 = unlimited), name (own / own_prefix, <<>> = "*"),  *)
+(*          nprefix]                                                           *)
+(* "Rules are considered in context order (default, group, user, console,      *)
+(*  mandatory); the last matching rule decides; nothing is allowed by default."*)
+EXTENDS Naturals, Integers, Sequences, FiniteSets
+
 AllowAllPolicy == [kind |-> "allow-all"]
-\* may the connection with credential `u` send m (requested = it is a requested reply) to a recipient that
-\* (if rcptKnown) holds or is queued for the names rcptNames
-CanSend(policy, u, m, requested, rcptKnown, rcptNames) == TRUE
-\* may the connection with credential `u` receive m from a sender holding sndNames
-CanReceive(policy, u, m, requested, sndNames, eavesdropping) == TRUE
-CanOwn(policy, u, n) == TRUE
+cDotP == 46
+
+RECURSIVE Cat(_,_)
+Cat(ss, i) == IF i > Len(ss) THEN <<>> ELSE ss[i] \o Cat(ss, i + 1)
+
+GroupsOf(policy, u) == IF \E i \in 1..Len(policy.groupsOf) : policy.groupsOf[i].uid = u
+                       THEN policy.groupsOf[CHOOSE i \in 1..Len(policy.groupsOf) : policy.groupsOf[i].uid = u].gids
+                       ELSE <<>>
+
+CtxRules(policy, c, id) ==
+  Cat([i \in 1..Len(policy.ctx) |-> IF policy.ctx[i].c = c /\ (c \in {"default", "mandatory", "console_f", "console_t"} \/ policy.ctx[i].id = id)
+                                     THEN policy.ctx[i].rules ELSE <<>>], 1)
+
+\* the rule list of one connection, before any "optimisation"
+ClientRulesFull(policy, cred) ==
+  LET gs == GroupsOf(policy, cred.uid) IN
+  CtxRules(policy, "default", 0)
+  \o Cat([i \in 1..Len(gs) |-> CtxRules(policy, "group", gs[i])], 1)
+  \o CtxRules(policy, "user", cred.uid)
+  \o CtxRules(policy, "console_f", 0)
+  \o CtxRules(policy, "mandatory", 0)
+
+\* KNOWN DEFECT (deviation PolicyPruning): bus_client_policy_optimize deletes every earlier rule of the same kind
+\* when it meets a rule without type/path/interface/member/error/peer -- although send_broadcast, the fd range,
+\* requested_reply and eavesdrop still restrict what such a rule matches.
+CatchAll(r) == IF r.k = "own" THEN r.name = <<>> /\ ~r.nprefix
+               ELSE r.ty = 0 /\ r.path = <<>> /\ r.ifc = <<>> /\ r.mem = <<>> /\ r.err = <<>> /\ r.peer = <<>>
+Pruned(rs) == LET keep(i) == ~\E j \in (i+1)..Len(rs) : rs[j].k = rs[i].k /\ CatchAll(rs[j]) IN
+              LET idx == {i \in 1..Len(rs) : keep(i)} IN
+              LET RECURSIVE build(_)
+                  build(i) == IF i > Len(rs) THEN <<>> ELSE (IF i \in idx THEN <<rs[i]>> ELSE <<>>) \o build(i + 1) IN
+              build(1)
+ClientRules(policy, cred) == IF policy.prune THEN Pruned(ClientRulesFull(policy, cred)) ELSE ClientRulesFull(policy, cred)
+
+StartsWithWords(a, p) == /\ Len(a) >= Len(p) /\ SubSeq(a, 1, Len(p)) = p
+                         /\ (Len(a) = Len(p) \/ a[Len(p) + 1] = cDotP)
+
+FieldOk(rv, mv) == rv = <<>> \/ mv = <<>> \/ mv = rv          \* path, member, error: absent in the message = matches
+IfcOk(r, m) == r.ifc = <<>> \/ (IF m.ifc = <<>> THEN ~r.allow ELSE m.ifc = r.ifc)
+ReplyOk(r, m, requested) ==
+  m.rs = 0 \/ ( /\ ~(~requested /\ r.allow /\ r.rr /\ ~r.eav)
+               /\ ~(requested /\ ~r.allow /\ ~r.rr) )
+FdsOk(r, m) == (r.minf > 0 \/ r.maxf # -1) => (m.nfd >= r.minf /\ (r.maxf = -1 \/ m.nfd <= r.maxf))
+
+SendMatches(r, m, requested, rcptKnown, rcptNames) ==
+  /\ r.k = "send"
+  /\ (r.ty # 0 => m.ty = r.ty)
+  /\ ReplyOk(r, m, requested)
+  /\ FieldOk(r.path, m.path) /\ IfcOk(r, m) /\ FieldOk(r.mem, m.mem) /\ FieldOk(r.err, m.err)
+  /\ (r.bcast # 0 => IF m.dst = <<>> /\ m.ty = 4 THEN r.bcast # 2 ELSE r.bcast # 1)
+  /\ (r.peer # <<>> /\ ~r.prefix => IF rcptKnown THEN r.peer \in rcptNames ELSE m.dst = r.peer)
+  /\ (r.peer # <<>> /\ r.prefix => IF rcptKnown THEN \E n \in rcptNames : StartsWithWords(n, r.peer)
+                                   ELSE m.dst # <<>> /\ StartsWithWords(m.dst, r.peer))
+  /\ FdsOk(r, m)
+
+RecvMatches(r, m, requested, sndNames, eavesdropping) ==
+  /\ r.k = "recv"
+  /\ (r.ty # 0 => m.ty = r.ty)
+  /\ ~(eavesdropping /\ r.allow /\ ~r.eav)
+  /\ ~(~eavesdropping /\ ~r.allow /\ r.eav)
+  /\ ReplyOk(r, m, requested)
+  /\ FieldOk(r.path, m.path) /\ IfcOk(r, m) /\ FieldOk(r.mem, m.mem) /\ FieldOk(r.err, m.err)
+  /\ (r.peer # <<>> => r.peer \in sndNames)
+  /\ FdsOk(r, m)
+
+OwnMatches(r, n) == /\ r.k = "own"
+                    /\ (IF r.nprefix THEN StartsWithWords(n, r.name) ELSE (r.name = <<>> \/ r.name = n))
+
+\* last matching rule decides, default deny
+CanSend(policy, cred, m, requested, rcptKnown, rcptNames) ==
+  IF policy.kind = "allow-all" THEN TRUE
+  ELSE LET rs == ClientRules(policy, cred)
+           RECURSIVE go(_,_)
+           go(i, acc) == IF i > Len(rs) THEN acc
+                         ELSE go(i + 1, IF SendMatches(rs[i], m, requested, rcptKnown, rcptNames) THEN rs[i].allow ELSE acc) IN
+       go(1, FALSE)
+
+CanReceive(policy, cred, m, requested, sndNames, eavesdropping) ==
+  IF policy.kind = "allow-all" THEN TRUE
+  ELSE LET rs == ClientRules(policy, cred)
+           RECURSIVE go(_,_)
+           go(i, acc) == IF i > Len(rs) THEN acc
+                         ELSE go(i + 1, IF RecvMatches(rs[i], m, requested, sndNames, eavesdropping) THEN rs[i].allow ELSE acc) IN
+       go(1, FALSE)
+
+CanOwn(policy, cred, n) ==
+  IF policy.kind = "allow-all" THEN TRUE
+  ELSE LET rs == ClientRules(policy, cred)
+           RECURSIVE go(_,_)
+           go(i, acc) == IF i > Len(rs) THEN acc ELSE go(i + 1, IF OwnMatches(rs[i], n) THEN rs[i].allow ELSE acc) IN
+       go(1, FALSE)
 =============================================================================
